@@ -147,12 +147,30 @@ def run(prog, rep, tier):
                                     pass
     rep.examined(R123, cb.path, sample={"constants": consts, "comparisons_against_constants": cmps})
     vals = set(v for _, v in cmps)
-    want_lo = consts.get("s4::BLOCKSZ_MIN")
-    want_hi = consts.get("s4::BLOCKSZ_MAX")
-    if want_lo is None or want_hi is None:
-        raise CheckerError("CLI block-size bound constants not found")
-    if want_lo not in vals or want_hi not in vals:
-        rep.violation(R123, cb.path + "|bounds", "cli_process_blocksz: does not compare the requested size with BLOCKSZ_MIN=%s and BLOCKSZ_MAX=%s (compares with %s)" % (want_lo, want_hi, sorted(vals)))
+    # the lower bound is max(BLOCKSZ_MIN, SyslogProcessor::BLOCKSZ_MIN): constants flow into cmp::max, its result into the comparison
+    for c in cb.live_calls():
+        if c.d.startswith("std::cmp::max") or c.d.startswith("core::cmp::max") or c.d.endswith("cmp::Ord::max"):
+            used = any(any(x[0] == "call" and x[1] == c.bb for x in cb.origins(o)) for bb in sorted(cb.live) for s_ in cb.stmts(bb)
+                       if s_[0] == "=" and s_[2][0] == "bin" and s_[2][1] in ("Lt", "Le", "Gt", "Ge") for o in (s_[2][2], s_[2][3]) if o[0] != "k")
+            if used:
+                for a in c.args:
+                    if a[0] == "k" and isinstance(a[2], int):
+                        vals.add(a[2])
+                    elif a[0] != "k":
+                        for x in cb.origins(a):
+                            if x[0] == "const":
+                                try:
+                                    vals.add(int(x[1]))
+                                except Exception:
+                                    pass
+    lows = [v for k, v in consts.items() if k.endswith("BLOCKSZ_MIN")]
+    highs = [v for k, v in consts.items() if k.endswith("blockreader::BLOCKSZ_MAX")]
+    if len(lows) < 2 or len(highs) != 1:
+        raise CheckerError("block-size bound constants not found (%s)" % sorted(consts))
+    want_lo, want_hi = max(lows), highs[0]
+    rep.examined(R123, cb.path + "|bounds", sample={"enforced_values": sorted(vals), "BLOCKSZ_MIN constants": sorted(lows), "BLOCKSZ_MAX": want_hi})
+    if not all(l in vals for l in lows) or want_hi not in vals:
+        rep.violation(R123, cb.path + "|bounds", "cli_process_blocksz: does not compare the requested size with max(BLOCKSZ_MIN constants %s) and BLOCKSZ_MAX=%s (compares with %s)" % (sorted(lows), want_hi, sorted(vals)))
 
     return rep.finish(
         "Static necessary-condition check: (R12.1) no value derived from the length of block zero may select the count that decides file "
